@@ -70,7 +70,7 @@ func (db *DB) handleSubscription(ctx context.Context, r *request.Request) (<-cha
 			s := subRequest.ToSelect(evt.DocID, evt.Cid.String())
 
 			result, err := p.RunSelection(ctx, s)
-			if err == nil && len(result) == 0 {
+			if err == nil && isEmptySubscriptionResult(result) {
 				txn.Discard(ctx)
 				continue // Don't send anything back to the client if the request yields an empty dataset.
 			}
@@ -91,4 +91,18 @@ func (db *DB) handleSubscription(ctx context.Context, r *request.Request) (<-cha
 	}()
 
 	return resCh, nil
+}
+
+// isEmptySubscriptionResult returns true if the given result does not contain any document.
+//
+// This is the case when the updated document does not match the filter of the subscription,
+// when it can not be read by the subscriber, and for collection level updates.
+func isEmptySubscriptionResult(result map[string]any) bool {
+	for _, value := range result {
+		docs, ok := value.([]map[string]any)
+		if !ok || len(docs) > 0 {
+			return false
+		}
+	}
+	return true
 }
